@@ -92,3 +92,58 @@ Definition adapt_int (s : string) : option Z :=
   | String "+"%char r => if all_digits r && negb (String.eqb r "") then parse_int s else None
   | _ => parse_int s
   end.
+
+(** [fmt.Sprintf("%g", f)] for a finite float whose exact decimal expansion is short (the reduced
+    denominator divides [10^k], [k <= 12]): that expansion is then also the shortest rendering that
+    round-trips.  [None] for other values (excluded from generation). *)
+Fixpoint find_pow10 (fuel : nat) (k : Z) (den : Z) : option Z :=
+  match fuel with
+  | O => None
+  | S f => if (10 ^ k) mod den =? 0 then Some k else find_pow10 f (k + 1) den
+  end.
+Fixpoint pad_zeros (n : nat) (s : string) : string :=
+  match n with O => s | S n' => if (String.length s <? S n')%nat then pad_zeros n' ("0" +:+ s) else s end.
+Fixpoint strip_trailing_zeros_aux (l : list ascii) : list ascii :=
+  match l with "0"%char :: r => strip_trailing_zeros_aux r | _ => l end.
+Definition show_decimal (q : Q) : option string :=
+  let q' := Qred q in
+  let den := Zpos (Qden q') in
+  match find_pow10 13 0 den with
+  | None => None
+  | Some k =>
+      let scaled := Qnum q' * (10 ^ k / den) in
+      let neg := scaled <? 0 in
+      let a := Z.abs scaled in
+      let ip := a / 10 ^ k in
+      let fp := a mod 10 ^ k in
+      let fps := pad_zeros (Z.to_nat k) (show_Z fp) in
+      Some ((if neg then "-" else "") +:+ show_Z ip +:+ (if k =? 0 then "" else "." +:+ fps))
+  end.
+Definition fl_text (f : fl) : option string :=
+  match f with
+  | FFin q => show_decimal q
+  | FPInf => Some "+Inf"
+  | FNInf => Some "-Inf"
+  end.
+
+(** [strconv.ParseFloat] on the tokens the generators use: signed digit strings and plain decimals
+    (any zeros allowed), "inf"-family excluded. *)
+Definition parse_float_arg (s : string) : option Q :=
+  let '(neg, body) := match s with
+                      | String "-"%char r => (true, r)
+                      | String "+"%char r => (false, r)
+                      | _ => (false, s) end in
+  let mk (num : Z) (k : Z) := Some (Qred (Qmake (if neg then - num else num) (Z.to_pos (10 ^ k)))) in
+  match split_on "."%char "" body with
+  | [ip] => if negb (String.eqb ip "") && all_digits ip then
+              match parse_nat ip with Some i => mk i 0 | None => None end
+            else None
+  | [ip; fp] =>
+      if all_digits ip && all_digits fp && negb (String.eqb (ip +:+ fp) "") then
+        match digits_val 0 ip, digits_val 0 fp with
+        | Some i, Some f => let k := Z.of_nat (String.length fp) in mk (i * 10 ^ k + f) k
+        | _, _ => None
+        end
+      else None
+  | _ => None
+  end.
